@@ -69,3 +69,11 @@ def c11_gen_known(flt, raw, got, tz):
 
 def c11_gen_known_failure(flt, resp):
     return None
+
+
+# ---------------------------------------------------------------------------
+# C12
+
+
+def c12_known(kind, flt, raw, got):
+    return None
